@@ -15,5 +15,5 @@ sed '/^\/\/ replay result:/,$d' "$f" > "$tmp/zz_verif_replay_test.go"
 printf '{"Replace":{"%s/%s/zz_verif_replay_test.go":"%s/zz_verif_replay_test.go"}}' "$repo" "$pkg" "$tmp" > "$tmp/ov.json"
 out=$(cd "$repo" && go test -tags verif -overlay "$tmp/ov.json" -vet=off -count=1 -timeout 60s -run '^TestVerifReplay$' "./$pkg" 2>&1)
 echo "$out" | tail -15
-if echo "$out" | grep -q "REPLAY-CONFIRMED\|panic:\|test timed out"; then echo "replay: the real code FAILS on the counter-model"; exit 1; fi
+if echo "$out" | grep -q "REPLAY-CONFIRMED\|REPLAY-PANIC\|panic:\|test timed out"; then echo "replay: the real code FAILS on the counter-model"; exit 1; fi
 echo "replay: the real code does not fail on this input"; exit 0
